@@ -108,7 +108,7 @@ pub struct GhostError;
 pub trait Storage {
     type Error;
     type MetadataIter: Iterator<Item = (Key, HLCTimestamp, bool)>;
-    fn get_keyspace_list(&self) -> Result<VVec<String>, Self::Error>;
+    fn get_keyspace_list(&self) -> Result<std::vec::Vec<String>, Self::Error>;
     fn iter_metadata(&self, keyspace: &str) -> Result<Self::MetadataIter, Self::Error>;
 }
 
@@ -132,11 +132,11 @@ impl GhostStore {
 impl Storage for GhostStore {
     type Error = GhostError;
     type MetadataIter = vcoll::vvec::IntoIter<(Key, HLCTimestamp, bool)>;
-    fn get_keyspace_list(&self) -> Result<VVec<String>, GhostError> {
+    fn get_keyspace_list(&self) -> Result<std::vec::Vec<String>, GhostError> {
         if self.fail_list {
             return Err(GhostError);
         }
-        let mut v = VVec::new();
+        let mut v = std::vec::Vec::new();
         let mut i = 0;
         while i < MAX_KS {
             if i < self.n_ks {
